@@ -463,7 +463,7 @@ def evaluate(ctx, cases):
         if t is not None:
             terms.append(t)
             meta.append((i, idx))
-    codes = ctx.coq_codes('cases', HEADER, 'case', terms, 'check_case', shard=max(8, min(40, len(terms) // 12 + 1)))
+    codes = ctx.coq_codes('cases', HEADER, 'case', terms, 'check_case', shard=max(8, min(30, len(terms) // 16 + 1)), jobs=16)
     return obs, meta, codes
 
 
